@@ -35,7 +35,8 @@ ASSUMPTIONS = [
 REQUIRED_COUNTERS = ["sequences", "operations", "file_probes_with_checkpoint", "final_resumes"]
 EXHAUSTIVE = lambda tier: True  # noqa: E731
 
-TOKENS = ["fitA", "fitB", "fitBo", "is", "smc", "E", "E2", "X", "R", "smc2", "fitB2", "is0", "fit0"]
+TOKENS = ["fitA", "fitB", "fitBo", "is", "smc", "E", "E2", "X", "R", "smc2", "fitB2", "is0", "fit0", "fitBx"]
+# fitBx: a refit whose update of file1 fails (the file is held open elsewhere); the caller catches the error and carries on
 # is0 / fit0: the operation names no file at all (outside a context it touches no file and only changes the object's state)
 # smc2 / fitB2: the operation names file2 explicitly (checkpoint_path=...), whatever context is active
 
@@ -101,6 +102,9 @@ def cases(tier, seed):
             # structured: a checkpointed run, then operations on the object that name no file, then an operation on the file again
             mid = [str(x) for x in g.choice(["is0", "fit0"], size=int(g.integers(1, 3)))]
             seq = [str(g.choice(["fitA", "fitB"])), "smc"] + mid + [str(g.choice(["fitA", "fitB", "fitBo", "is", "E"]))] + [TOKENS[i] for i in g.integers(0, len(TOKENS), int(g.integers(0, 3)))]
+        if tries % 8 == 5:
+            # structured: inside one context a checkpointed run, a refit whose file update fails, another run
+            seq = ["E", str(g.choice(["fitA", "fitB"])), "smc", "fitBx", str(g.choice(["smc", "is"]))] + [TOKENS[i] for i in g.integers(0, len(TOKENS), int(g.integers(0, 3)))]
         if valid(seq) and ("smc" in seq or "smc2" in seq):
             extra.append(seq)
     per = 12
@@ -229,6 +233,18 @@ def run_sequence(seq, g, counters, viol):
                 res = smcrun.run(a, 10, "smc", dict(smc_kw, rng=np.random.default_rng(int(g.integers(2**31))), checkpoint_path=f2), max_calls=500)
                 if res.exc is not None:
                     raise res.exc
+            elif tok == "fitBx":
+                import h5py
+
+                holder = h5py.File(f1, "r") if os.path.exists(f1) else None
+                try:
+                    a.fit(data["B"], **({} if inside else {"checkpoint_path": f1}))
+                    counters["refits_with_locked_file_that_did_not_fail"] += int(holder is not None)
+                except OSError:
+                    counters["refits_whose_file_update_failed"] += 1
+                finally:
+                    if holder is not None:
+                        holder.close()
             elif tok.startswith("fit"):
                 kw = {} if inside else {"checkpoint_path": f1}
                 a.fit(data["A" if tok == "fitA" else "B"], overwrite=(tok == "fitBo"), **kw)
